@@ -432,6 +432,20 @@ func (g *gen) boolExpr(depth int) Expr {
 		op := []string{"&&", "||", "&", "|", "==", "!="}[g.intn(6, "lop")]
 		g.class("logic" + op)
 		lb := &Binary{Op: op, L: g.expr(TBool, depth-1), R: g.expr(TBool, depth-1), T: TBool}
+		if (op == "&&" || op == "||") && g.f.off("const-fold.logical-named-const") {
+			// (known finding C05-19) the other operand may itself fold to a literal inside naga
+			// (false && x), so a named constant is kept out of every direct && / || operand
+			fix := func(e Expr) Expr {
+				if v, ok := e.(*VarRef); ok && v.V.Kind == VConst {
+					if g.inConst > 0 || len(g.inputs) == 0 {
+						return g.litOf(Bool)
+					}
+					return g.runtimeOf(TBool)
+				}
+				return e
+			}
+			lb.L, lb.R = fix(lb.L), fix(lb.R)
+		}
 		if foldable(lb) && g.f.off("const-fold.logical-named-const") {
 			// (known finding C05-19: && / || of constants that include a named const fold to false)
 			named := false
